@@ -8,6 +8,7 @@ import (
 	"go/ast"
 	"go/token"
 	"go/types"
+	"net/textproto"
 	"strconv"
 	"strings"
 )
@@ -54,6 +55,8 @@ func defaultGhost(st *State, key string) Value {
 				"kind": App(nm+".kind", SInt, i), "a": App(nm+".a", SStr, i), "b": App(nm+".b", SStr, i),
 				"n": App(nm+".n", SInt, i), "h": App(nm+".h", SInt, i)}}
 		}}
+	case strings.HasPrefix(key, "hdr:"):
+		return Var(fmt.Sprintf("hdr%d:%s", ep, key[4:]), SArr(SStr, SStr))
 	case strings.HasPrefix(key, "refused:"):
 		return Var(fmt.Sprintf("refused%d:%s", ep, key[8:]), SInt)
 	case strings.HasPrefix(key, "lock:"):
@@ -117,6 +120,9 @@ func (ec *evalCtx) bufferObject(w Value) (int, bool) {
 }
 
 func (ec *evalCtx) outLval(w Value) lval {
+	if c, a, b, ok := splitIface(w); ok {
+		return condLval(c, ec.outLval(a), ec.outLval(b))
+	}
 	if id, ok := ec.bufferObject(w); ok {
 		return lval{
 			get: func() Value { return ec.st.heap[id].(*StructV).F["buf"] },
@@ -315,7 +321,50 @@ func (ec *evalCtx) traceAppend(w Value, ev *StructV) {
 }
 
 // inLval: the unread input of a reader (bufio.Reader etc.).
+// splitIface: an interface value whose identity is a conditional (two different values merged at a join) as its
+// alternatives, so that ghost state attached to the identity is read and written per alternative.
+func splitIface(v Value) (cond *Term, a, b Value, ok bool) {
+	x, isI := v.(*IfaceV)
+	if !isI || x.Id == nil || x.Id.Op != "ite" || len(x.Id.Args) != 3 {
+		return nil, nil, nil, false
+	}
+	c := x.Id.Args[0]
+	tagA, tagB := x.Tag, x.Tag
+	if x.Tag.Op == "ite" && len(x.Tag.Args) == 3 && x.Tag.Args[0].Key() == c.Key() {
+		tagA, tagB = x.Tag.Args[1], x.Tag.Args[2]
+	}
+	mk := func(id, tag *Term) Value {
+		n := &IfaceV{Id: id, Tag: tag, Payloads: map[string]Value{}}
+		for k, p := range x.Payloads {
+			n.Payloads[k] = p
+		}
+		return n
+	}
+	return c, mk(x.Id.Args[1], tagA), mk(x.Id.Args[2], tagB), true
+}
+
+func condLval(c *Term, la, lb lval) lval {
+	return lval{
+		get: func() Value { return Ite(c, scalar(la.get()), scalar(lb.get())) },
+		set: func(v Value) {
+			va, vb := scalar(la.get()), scalar(lb.get())
+			la.set(Ite(c, scalar(v), va))
+			lb.set(Ite(c, vb, scalar(v)))
+		},
+	}
+}
+
 func (ec *evalCtx) inLval(rd Value) lval {
+	if c, a, b, ok := splitIface(rd); ok {
+		return condLval(c, ec.inLval(a), ec.inLval(b))
+	}
+	if id, ok := ec.bufferObject(rd); ok {
+		// an in-memory buffer used as a reader: its unread input is its contents
+		return lval{
+			get: func() Value { return ec.st.heap[id].(*StructV).F["buf"] },
+			set: func(v Value) { ec.st.heap[id] = ec.st.heap[id].(*StructV).With("buf", v) },
+		}
+	}
 	wk := writerKey(ec, rd)
 	key := "in:" + wk
 	return lval{
@@ -532,12 +581,48 @@ func init() {
 		return &StructV{Names: []string{"$headerOf"}, F: map[string]Value{"$headerOf": recv}}
 	}
 	stdModels["(net/http.Header).Set"] = func(ec *evalCtx, call *ast.CallExpr, recv Value, args []Value) Value {
+		if mv, isMap := recv.(*MapV); isMap {
+			// a header map of a request / response: ghost view canonical key -> first value
+			lv := ec.headerLval(mv)
+			lv.set(Store(scalar(lv.get()), canonHeaderKey(scalar(args[0])), scalar(args[1])))
+			ec.e().trusted["net/http.Header modelled as a map from canonical key to its first value (Get / Set)"] = true
+			return nil
+		}
 		sv, ok := recv.(*StructV)
 		if !ok || sv.F["$headerOf"] == nil {
 			panic(unsupported("Header.Set on a header that does not come from ResponseWriter.Header()"))
 		}
 		ec.traceAppend(sv.F["$headerOf"], mkEvent(evSetHeader, scalar(args[0]), scalar(args[1]), nil, nil))
 		return nil
+	}
+	stdModels["(net/http.Header).Del"] = func(ec *evalCtx, call *ast.CallExpr, recv Value, args []Value) Value {
+		mv, isMap := recv.(*MapV)
+		if !isMap {
+			panic(unsupported("Header.Del on %T", recv))
+		}
+		lv := ec.headerLval(mv)
+		lv.set(Store(scalar(lv.get()), canonHeaderKey(scalar(args[0])), Str("")))
+		return nil
+	}
+	stdModels["(net/http.Header).Add"] = func(ec *evalCtx, call *ast.CallExpr, recv Value, args []Value) Value {
+		mv, isMap := recv.(*MapV)
+		if !isMap {
+			panic(unsupported("Header.Add on %T", recv))
+		}
+		// the first value stays the first value unless there was none
+		lv := ec.headerLval(mv)
+		k := canonHeaderKey(scalar(args[0]))
+		cur := Select(scalar(lv.get()), k)
+		lv.set(Store(scalar(lv.get()), k, Ite(Eq(cur, Str("")), scalar(args[1]), cur)))
+		return nil
+	}
+	stdModels["(net/http.Header).Get"] = func(ec *evalCtx, call *ast.CallExpr, recv Value, args []Value) Value {
+		mv, isMap := recv.(*MapV)
+		if !isMap {
+			panic(unsupported("Header.Get on %T", recv))
+		}
+		ec.e().trusted["net/http.Header modelled as a map from canonical key to its first value (Get / Set)"] = true
+		return Select(scalar(ec.headerLval(mv).get()), canonHeaderKey(scalar(args[0])))
 	}
 	stdModels["(net/http.ResponseWriter).WriteHeader"] = func(ec *evalCtx, call *ast.CallExpr, recv Value, args []Value) Value {
 		ec.traceAppend(recv, mkEvent(evWriteHeader, nil, nil, scalar(args[0]), nil))
@@ -953,3 +1038,27 @@ func htmlEscapeConst(s string) string {
 }
 
 var _ = token.NoPos
+
+// canonHeaderKey: constant keys are canonicalised as net/http does; other keys go through an uninterpreted canon().
+func canonHeaderKey(k *Term) *Term {
+	if k.IsStr() {
+		return Str(textproto.CanonicalMIMEHeaderKey(k.Str))
+	}
+	return App("http.canonicalKey", SStr, k)
+}
+
+// headerLval: ghost contents of a header map, keyed by the identity of the map.
+func (ec *evalCtx) headerLval(mv *MapV) lval {
+	key := "hdr:" + mv.Ref.Key()
+	return lval{
+		get: func() Value {
+			if v, ok := ec.st.ghost[key]; ok {
+				return v
+			}
+			v := Var(fmt.Sprintf("hdr%d:%s", ghostEpoch(ec.st), mv.Ref.Key()), SArr(SStr, SStr))
+			ec.st.ghost[key] = v
+			return v
+		},
+		set: func(v Value) { ec.st.ghost[key] = v },
+	}
+}
